@@ -58,6 +58,20 @@ def main():
             o.update({"ips": b["ips"], "zooms": [[], [2], [2, 4]][k % 3], "zmode": "manual"})
             lay.append({"kind": kind, "chroms": [b["L"]] * b["NC"], "items": b["items"], "opts": o, "vmap": "int", "scale": 1, "asq": "bed3", "mz": [],
                         "allq": 0, "zq": 0})
+    # larger inputs: more than the 8 KiB of a BufWriter per chromosome, so that data reaches the destination in several
+    # operations and the staging buffers / inner BufWriters are flushed at drop time
+    for k in range(4 if run.thorough else 2):
+        kind = "bw" if k % 2 == 0 else "bb"
+        items = []
+        for c in (1, 2):
+            p_ = 0
+            for i in range(1500 + 700 * k):
+                items.append([c, p_, p_ + 1 + i % 3, 1 + i % 5])
+                p_ += 1 + i % 3 + (2 if i % 4 == 0 else 0)
+        L = max(it[2] for it in items) + 5
+        lay.append({"kind": kind, "chroms": [L, L], "items": items, "vmap": "int", "scale": 1, "asq": "bed3", "mz": [], "allq": 0, "zq": 0, "big": 1,
+                    "opts": {"ips": 512, "bs": 16, "zooms": [[], [64]][k % 2], "zmode": "manual", "compress": 0, "inmem": k % 2, "rt": "multi", "threads": 2,
+                             "pass": 1 + (k // 2) % 2, "chan": 100, "sort": "all"}})
     rec = [dict(c, mode="record", dump=os.path.join(run.wd, "full%d.bin" % i)) for i, c in enumerate(lay)]
     obs = run_harness("sink", rec, run.wd, hang_timeout=30, shards=8)
     lines, tr_lines, owner = [], [], []
@@ -66,7 +80,7 @@ def main():
         o.pop("case", None)
         ob = o["obs"]
         lines.append(json.dumps({"mode": "record", "obs": {k: ob.get(k) for k in ("result", "full", "prefixes")}}, separators=(",", ":")))
-        run.count_case(json.dumps([o["kind"], o["items"], o["opts"]]), len(o["opts"]["zooms"]) > 0)
+        run.count_case(json.dumps([o["kind"], o["items"][:50], len(o["items"]), o["opts"]]), len(o["opts"]["zooms"]) > 0)
         if ob.get("result") == "ok" and os.path.exists(o["dump"]):
             img = bbi_codec.decode(open(o["dump"], "rb").read())
             os.remove(o["dump"])
@@ -104,7 +118,7 @@ def main():
         if o["obs"].get("result") == "skipped":
             continue
         lines.append(json.dumps({"mode": "fault", "obs": o["obs"]}, separators=(",", ":")))
-        run.count_case(json.dumps([o["kind"], o["items"], o["opts"], o["fault"]]), True)
+        run.count_case(json.dumps([o["kind"], o["items"][:50], len(o["items"]), o["opts"], o["fault"]]), True)
     allobs = obs + [o for o in fobs if o["obs"].get("result") != "skipped"]
     bad = validate_obs("Obs_Sink", "Obs.cfg", lines, run.wd, "obs")
     run.cov["traces_validated_against_impl"] += len(fobs)
@@ -114,7 +128,7 @@ def main():
     for i, tag in bad:
         tags[tag] = tags.get(tag, 0) + 1
         o = allobs[i]
-        small = {k: o[k] for k in o if k not in ("obs", "dump")}
+        small = {k: (o[k] if not (k == "items" and o.get("big")) else o[k][:6] + ["... %d items: [c, p, p+1+i%%3, 1+i%%5], p += 1+i%%3 (+2 every 4th)" % len(o[k])]) for k in o if k not in ("obs", "dump")}
         run.violation("C14 %s: %s fault=%s -> %s" % (tag, json.dumps(small)[:260], o.get("fault"), json.dumps({k: o["obs"].get(k) for k in ("result", "fired", "nops")})),
                       {"kind": "sink", "tag": tag, "case": small, "obs": {k: o["obs"].get(k) for k in ("result", "fired", "nops", "fault")}})
     if tags:
